@@ -8,6 +8,12 @@ Three observations per input (case kinds of harness/h-render and ocaml/drv_svg.m
   svgtext  the text of the foreground rows recovered the same way, against the model
            AND against the specification (Spec/Sgr.spec_runs split by
            Spec/SvgSpec.svg_split_nl_dropping_cr): the property's oracle;
+  svgcls   the (foreground classes, background class, text) pieces of every row
+           recovered the same way, neighbouring pieces of equal classes merged, against
+           the model AND against the specification (Spec/SvgSpec.svg_spec_rows of
+           spec_runs under the configured defaults: invert swapped against them, the
+           documented class names); the spec side abstains where C07's link
+           (model runs = spec_runs) does not hold;
   svgraw   the real bytes against svg_print (svg_doc ..), byte for byte; the two
            quantities that depend on unicode_width (the width attribute, the length
            of every background fill) are read off the real output in a first stage
@@ -146,6 +152,28 @@ def exhaustive_styles():
     return out
 
 
+def invert_defaults(rng):
+    """SGR 7 with the foreground / background unset, set on one side, set on both:
+    what is drawn depends on the CONFIGURED default colours"""
+    out = []
+    for _ in range(rng.choice([1, 2, 3])):
+        parts = ["0"] if rng.randrange(2) else []
+        parts.append("7")
+        k = rng.randrange(4)
+        if k in (1, 3):
+            parts.append(colour_code(rng, 30) or "31")
+        if k in (2, 3):
+            parts.append(colour_code(rng, 40) or "42")
+        rng.shuffle(parts)
+        if "0" in parts:
+            parts.remove("0")
+            parts.insert(0, "0")
+        out.append("\x1b[" + ";".join(parts) + "m" + rng.choice(["x", "ab", "&", "a\nb", "\u4e2d"]))
+        if rng.randrange(3) == 0:
+            out.append("\x1b[0m" + rng.choice(["y", "\n", "\r\n"]))
+    return "".join(out)
+
+
 def configs(rng, n_random_palettes):
     pals = ["vga", "win10"] + ["".join("%02x" % rng.randrange(256) for _ in range(48)) for _ in range(n_random_palettes)]
     return pals
@@ -160,9 +188,9 @@ class C14(Prop):
     nontrivial_rule = ("cases: C07's in-grammar styled texts salted with XML specials and line ends; directed texts (XML-special characters and look-alike markup, "
                        "wide / zero-width / boundary characters, C0 controls that are executed but not printed, LF / CR LF / empty lines / CR separated from LF by a "
                        "style change, invert with and without explicit colours, all three colour kinds in the fg / bg / underline slots, every effect); every "
-                       "combination of colour kind per slot x invert; x {VGA, Win10, random palettes} x six default-colour pairs x background on/off; U+000C, U+FFFE, "
-                       "U+FFFF excluded; carriage returns that are NOT directly before a newline (lone CR, CR CR LF, CR / style change / CR LF, CR at the end) included.  "
-                       "Three observations per input (recovered document, recovered text, raw bytes).  "
+                       "combination of colour kind per slot x invert; invert with unset / half-set colours under non-default default colours; "
+                       "x {VGA, Win10, random palettes} x six default-colour pairs x background on/off; U+000C, U+FFFE, U+FFFF excluded; carriage returns that are NOT directly before a newline (lone CR, CR CR LF, CR / style change / CR LF, CR at the end) included.  "
+                       "Four observations per input (recovered document, recovered text, recovered class pieces against the specification's, raw bytes).  "
                        "non-trivial = distinct input whose recovered document has a colour or effect rule in its style sheet")
     trusted = ["third-party html-escape (encode_text) and unicode-width: the first is modelled (& < >) and tied by the byte comparison, the second is an oracle "
                "(width attribute, length of background fills) that is not compared",
@@ -176,6 +204,7 @@ class C14(Prop):
         groups.append(("styled-texts(C07 generator + XML specials)", [clean(from_sgrgen(rng, False)) for _ in range(n)]))
         groups.append(("directed(specials,wide,zero-width,line-ends,invert,colour-kinds)", [clean(directed(rng)) for _ in range(n)]))
         groups.append(("colour-kind-per-slot x invert", exhaustive_styles()))
+        groups.append(("invert-against-configured-defaults", [invert_defaults(rng) for _ in range(n // 3)]))
         groups.append(("carriage-return-corners", [clean(directed(rng, True)) for _ in range(n // 3)] + [clean(from_sgrgen(rng, True)) for _ in range(n // 3)]))
         return groups
 
@@ -188,7 +217,7 @@ class C14(Prop):
             cases = []
             for i, s in enumerate(texts):
                 pal = pals[i % 2] if rng.randrange(4) else rng.choice(pals)
-                fg, bg = DEFAULTS[0] if rng.randrange(3) == 0 else rng.choice(DEFAULTS)
+                fg, bg = DEFAULTS[0] if rng.randrange(3) == 0 and not name.startswith("invert") else rng.choice(DEFAULTS[1:] if name.startswith("invert") else DEFAULTS)
                 flag = rng.randrange(2)
                 cases.append("%s %s %s %d %s" % (pal, fg, bg, flag, gen.hexs(list(s.encode("utf-8")))))
             # first stage: the oracle quantities (unicode_width) from the real output
@@ -200,7 +229,7 @@ class C14(Prop):
                 except ValueError:
                     width, fills = 0, {}
                 fl = ",".join("%s=%d" % (k.hex(), v) for k, v in sorted(fills.items()) if k) or "-"
-                lines += ["svgdoc " + c, "svgtext " + c, "svgraw %s %d %s" % (c, width, fl)]
+                lines += ["svgdoc " + c, "svgtext " + c, "svgcls " + c, "svgraw %s %d %s" % (c, width, fl)]
             if lines:
                 yield name, lines
 
@@ -213,4 +242,4 @@ class C14(Prop):
         return False
 
     def shrink_fields(self, line):
-        return [5] if line.startswith("svgtext ") else []
+        return [5] if line.startswith(("svgtext ", "svgcls ")) else []
